@@ -124,9 +124,11 @@ def run(prop, seed, budget, ctx):
             if mod.LOG != [(i, want_x)]: fail("resolver-did-not-receive-the-deserialized-argument", info=info, log=list(mod.LOG), want=want_x)
         if len(samples) < 4 and t not in NAMES: samples.append({"query": query, "return_type": t, "graphql_type": str(f.type), "data": res.data})
         # invalid argument: a GraphQL error, resolver not invoked
-        if arg in ("x: int", "x: int = 5", "x: List[int]"):
+        if arg in ("x: int", "x: int = 5", "x: List[int]", "x: Annotated[Optional[int], schema(min=0)]", "x: Annotated[Optional[int], schema(max=9)]", "x: Annotated[Optional[int], schema(min=0)] = None"):
             evaluations += 1
-            bad = {"x: int": '(x: "a")', "x: int = 5": "(x: 1.5)", "x: List[int]": '(x: [1, "b"])'}[arg]
+            # (the last three: a valid GraphQL Int that the annotation's constraint rejects - the annotations of the parameters count)
+            bad = {"x: int": '(x: "a")', "x: int = 5": "(x: 1.5)", "x: List[int]": '(x: [1, "b"])', "x: Annotated[Optional[int], schema(min=0)]": "(x: -5)",
+                   "x: Annotated[Optional[int], schema(max=9)]": "(x: 50)", "x: Annotated[Optional[int], schema(min=0)] = None": "(x: -1)"}[arg]
             mod.LOG.clear()
             res = graphql.graphql_sync(schema, "{ q%d%s%s }" % (i, bad, (" { %s }" % sel) if sel else ""))
             if not res.errors: fail("invalid-argument-accepted", info=info, data=res.data)
